@@ -19,7 +19,7 @@ PROPS = {
         level_note='option vectors with ratrec and ratfac both off run under a refinement limit and only their verdicts are checked; '
                    'reference truth = independent exact simplex with certificate re-check; LPs up to ~18x18',
         technique='runtime monitoring: zero-tolerance exact certificate oracle over executions of the exact solver under ASan+UBSan',
-        stages=two_flavour('h_exact', 400, 1600, 6000, 20000),
+        stages=two_flavour('h_exact', 400, 1600, 6000, 20000, crash_markers=['lifting=1', 'iterative_refinement=0']),
         minima=lambda t: {'c03.optimal_checked': 200, 'c03.farkas_checked': 40, 'c03.ray_checked': 30, 'c03.verdict_checked': 300,
                           'c03.sync.auto': 100, 'c03.sync.manual': 100, 'c03.sync.onlyreal': 100},
         eval_counter='cases', distinct_set='nontrivial',
